@@ -17,29 +17,62 @@ fn abnormal(code: Option<i32>) -> bool {
     !matches!(code, Some(0) | Some(1) | Some(2))
 }
 
-/// does `vh replay <file>` die abnormally (true), finish (false) ?  None = it hung
-fn replay_crashes(exe: &std::path::Path, file: &str, verif_dir: &str) -> Option<bool> {
-    let mut child = Command::new(exe)
-        .args(["replay", file, "--verif-dir", verif_dir])
-        .env("VH_CHILD", "1")
-        .stdout(std::process::Stdio::null())
-        .stderr(std::process::Stdio::null())
-        .spawn()
-        .ok()?;
+/// outcome of `vh replay <file>` in a fresh process
+#[derive(Debug, Clone, PartialEq)]
+enum Rp {
+    Crash,
+    /// the oracle reported a violation in-process: (index of the case in a `cases` file, message)
+    Violation(usize, String),
+    Clean,
+    Hang,
+}
+
+fn replay_outcome(exe: &std::path::Path, file: &str, verif_dir: &str) -> Rp {
+    let out_path = format!("{}.out", file);
+    let outf = match std::fs::File::create(&out_path) {
+        Ok(f) => f,
+        Err(_) => return Rp::Clean,
+    };
+    let child = Command::new(exe).args(["replay", file, "--verif-dir", verif_dir]).env("VH_CHILD", "1").stdout(outf).stderr(std::process::Stdio::null()).spawn();
+    let mut child = match child {
+        Ok(c) => c,
+        Err(_) => return Rp::Clean,
+    };
     let t0 = std::time::Instant::now();
-    loop {
+    let st = loop {
         match child.try_wait() {
-            Ok(Some(st)) => return Some(abnormal(st.code())),
+            Ok(Some(st)) => break st,
             Ok(None) => {
                 if t0.elapsed().as_secs() > 120 {
                     let _ = child.kill();
                     let _ = child.wait();
-                    return None;
+                    let _ = std::fs::remove_file(&out_path);
+                    return Rp::Hang;
                 }
                 std::thread::sleep(std::time::Duration::from_millis(5));
             }
-            Err(_) => return Some(false),
+            Err(_) => return Rp::Clean,
         }
+    };
+    let text = std::fs::read_to_string(&out_path).unwrap_or_default();
+    let _ = std::fs::remove_file(&out_path);
+    if abnormal(st.code()) {
+        return Rp::Crash;
+    }
+    if st.code() == Some(1) {
+        let ix = text.lines().find_map(|l| l.strip_prefix("TAIL-INDEX ")).and_then(|x| x.trim().parse().ok()).unwrap_or(0);
+        let msg = text.lines().skip_while(|l| !l.starts_with("VIOLATION")).nth(1).unwrap_or("").trim().to_string();
+        return Rp::Violation(ix, msg);
+    }
+    Rp::Clean
+}
+
+/// does `vh replay <file>` die abnormally (true), finish (false) ?  None = it hung
+fn replay_crashes(exe: &std::path::Path, file: &str, verif_dir: &str) -> Option<bool> {
+    match replay_outcome(exe, file, verif_dir) {
+        Rp::Crash => Some(true),
+        Rp::Hang => None,
+        _ => Some(false),
     }
 }
 
@@ -131,33 +164,119 @@ fn supervise(args: &[String], id: &str, verif_dir: &str) -> i32 {
     }
     // the child died: find the journaled case that kills a fresh process
     let mut files: Vec<String> = std::fs::read_dir(&jdir)
-        .map(|rd| rd.flatten().map(|e| e.path().to_string_lossy().to_string()).filter(|p| p.contains(&format!("/{}-w", id))).collect())
+        .map(|rd| rd.flatten().map(|e| e.path().to_string_lossy().to_string()).filter(|p| p.contains(&format!("/{}-w", id)) && p.ends_with(".json")).collect())
         .unwrap_or_default();
     files.sort();
-    for f in &files {
-        let mut hit = false;
+    let scratch = format!("{}/{}-scratch.json", jdir, id);
+    let lines_of = |f: &str| -> Vec<serde_json::Value> {
+        std::fs::read_to_string(f).unwrap_or_default().lines().filter_map(|l| serde_json::from_str(l).ok()).collect()
+    };
+    let report = |mut v: serde_json::Value, what: &str| -> i32 {
+        v["observed"] = serde_json::json!(format!("the checking process died abnormally (exit status {:?}: signal, abort or failed unsafe-precondition check) while executing {}; `vh replay` of this file dies the same way", code, what));
+        v["signature"] = serde_json::json!("process-crash");
+        let body = serde_json::to_string_pretty(&v).unwrap_or_default();
+        let d = format!("{}/replays/{}", verif_dir, id);
+        let _ = std::fs::create_dir_all(&d);
+        let path = format!("{}/crash-{:016x}.json", d, vh::ops::fnv64(body.as_bytes()));
+        let _ = std::fs::write(&path, body);
+        println!("VIOLATION property={} replay={}", id, path);
+        println!("  the checking process died abnormally (exit status {:?}) while executing {} in the replay file (memory corruption or a failed unsafe-precondition check inside the library)", code, what);
+        1
+    };
+    // an in-process violation found while attributing the crash (a worker was shrinking or about
+    // to report when another worker killed the process): minimise and report that case
+    let report_case = |case: serde_json::Value, msg: &str| -> i32 {
+        let d = format!("{}/replays/{}", verif_dir, id);
+        let _ = std::fs::create_dir_all(&d);
+        let mut v = case;
+        v["observed"] = serde_json::json!(msg);
+        let body = serde_json::to_string_pretty(&v).unwrap_or_default();
+        let path = format!("{}/{:016x}.json", d, vh::ops::fnv64(body.as_bytes()));
+        let _ = std::fs::write(&path, body);
+        let _ = Command::new(&exe).args(["minimize", &path, "--verif-dir", verif_dir]).env("VH_CHILD", "1").stdout(std::process::Stdio::null()).stderr(std::process::Stdio::null()).status();
+        let msg2 = std::fs::read_to_string(&path).ok().and_then(|t| serde_json::from_str::<serde_json::Value>(&t).ok()).and_then(|v| v["observed"].as_str().map(|s| s.to_string())).unwrap_or_else(|| msg.to_string());
+        println!("VIOLATION property={} replay={}", id, path);
+        println!("  {} (the checking process died abnormally, exit status {:?}, during the search; this journaled case shows the violation in a fresh process)", msg2, code);
+        1
+    };
+    // 1. the case in flight of some worker, alone
+    for f in files.iter().filter(|_| std::env::var_os("VH_SKIP_SINGLE").is_none()) {
+        let last = match lines_of(f).pop() {
+            Some(v) => v,
+            None => continue,
+        };
+        let _ = std::fs::write(&scratch, serde_json::to_vec(&last).unwrap_or_default());
         for _ in 0..3 {
-            if replay_crashes(&exe, f, verif_dir) == Some(true) {
-                hit = true;
-                break;
+            match replay_outcome(&exe, &scratch, verif_dir) {
+                Rp::Crash => {
+                    let v = minimize_crash(&exe, last, &scratch, verif_dir);
+                    return report(v, "the case");
+                }
+                Rp::Violation(_, msg) => return report_case(last, &msg),
+                _ => {}
             }
         }
-        if hit {
-            let text = std::fs::read_to_string(f).unwrap_or_default();
-            let v: serde_json::Value = serde_json::from_str(&text).unwrap_or(serde_json::Value::Null);
-            let mut v = minimize_crash(&exe, v, &format!("{}/{}-scratch.json", jdir, id), verif_dir);
-            v["observed"] = serde_json::json!(format!("the checking process died abnormally (exit status {:?}: signal, abort or failed unsafe-precondition check) while executing this case; `vh replay` of this file dies the same way", code));
-            v["signature"] = serde_json::json!("process-crash");
-            let body = serde_json::to_string_pretty(&v).unwrap_or_default();
-            let d = format!("{}/replays/{}", verif_dir, id);
-            let _ = std::fs::create_dir_all(&d);
-            let path = format!("{}/crash-{:016x}.json", d, vh::ops::fnv64(body.as_bytes()));
-            let _ = std::fs::write(&path, body);
-            println!("VIOLATION property={} replay={}", id, path);
-            println!("  the checking process died abnormally (exit status {:?}) while executing the case in the replay file (memory corruption or a failed unsafe-precondition check inside the library)", code);
-            return 1;
-        }
     }
+    // 2. damage done by an earlier case of the same worker: replay the journaled tail (the last
+    //    64..128 cases of that worker, in order, in one fresh process), then drop leading cases
+    for f in &files {
+        let mut tail = lines_of(&format!("{}.prev", f));
+        tail.extend(lines_of(f));
+        if tail.len() < 2 {
+            continue;
+        }
+        let (prop, engine) = (tail[0]["property"].clone(), tail[0]["engine"].clone());
+        let mk = |cs: &[serde_json::Value]| serde_json::json!({"property": prop, "engine": engine, "cases": cs.iter().map(|c| c["case"].clone()).collect::<Vec<_>>()});
+        let outcome = |cs: &[serde_json::Value]| -> Rp {
+            let _ = std::fs::write(&scratch, serde_json::to_vec(&mk(cs)).unwrap_or_default());
+            replay_outcome(&exe, &scratch, verif_dir)
+        };
+        let crashes = |cs: &[serde_json::Value]| outcome(cs) == Rp::Crash;
+        match outcome(&tail) {
+            Rp::Crash => {}
+            Rp::Violation(ix, msg) if ix < tail.len() => {
+                // does that case fail on its own?
+                let one = tail[ix].clone();
+                let _ = std::fs::write(&scratch, serde_json::to_vec(&one).unwrap_or_default());
+                if let Rp::Violation(_, m1) = replay_outcome(&exe, &scratch, verif_dir) {
+                    let _ = std::fs::remove_file(&scratch);
+                    return report_case(one, &m1);
+                }
+                let _ = msg;
+                continue;
+            }
+            _ => continue,
+        }
+        // shortest crashing suffix by halving, then single leading cases
+        let mut start = 0usize;
+        let mut step = tail.len() / 2;
+        while step >= 1 {
+            while start + step < tail.len() && crashes(&tail[start + step..]) {
+                start += step;
+            }
+            step /= 2;
+        }
+        let mut keep: Vec<serde_json::Value> = tail[start..].to_vec();
+        // drop inner cases one at a time (bounded)
+        let mut i = 1usize;
+        let mut budget = 60;
+        while i + 1 < keep.len() && budget > 0 {
+            let mut cand = keep.clone();
+            cand.remove(i);
+            budget -= 1;
+            if crashes(&cand) {
+                keep = cand;
+            } else {
+                i += 1;
+            }
+        }
+        let _ = std::fs::remove_file(&scratch);
+        if keep.len() == 1 {
+            return report(keep.pop().unwrap(), "the case");
+        }
+        return report(mk(&keep), &format!("the {} consecutive cases (one worker's journaled tail)", keep.len()));
+    }
+    let _ = std::fs::remove_file(&scratch);
     println!("INCONCLUSIVE property={} the checking process died abnormally (exit status {:?}) and none of the {} journaled cases reproduces the crash in a fresh process", id, code, files.len());
     2
 }
